@@ -32,7 +32,6 @@ import (
 	"testing"
 	"time"
 
-	"github.com/gotid/god/lib/discov"
 	"github.com/gotid/god/lib/discov/internal"
 	"github.com/gotid/god/lib/logx"
 	"verif.local/vk"
@@ -174,13 +173,8 @@ func (c *c15Conc) abandon(ws []*c15Watch) bool {
 func (c *c15Conc) doAttach(svc string, excl bool, r *rand.Rand) bool {
 	w := c.w
 	nb := w.etcd.watchCount()
-	var opts []discov.SubOption
-	if excl {
-		opts = append(opts, discov.Exclusive())
-	}
-	sub, err := discov.NewSubscriber(w.endpoints(), svc, opts...)
-	if err != nil {
-		w.inconclusive("NewSubscriber failed: %v", err)
+	sub, ok := w.newSubscriber(svc, excl)
+	if !ok {
 		return false
 	}
 	s := &c15Sub{id: len(w.subs), svc: svc, excl: excl, sub: sub, own: map[string]map[string]bool{}, tainted: true}
